@@ -151,12 +151,13 @@ class SetMutator(Contract):
         return dict(harness="containers", family="set", cls=self.cls, op=self.fname, ov=ov, members=members, args=args,
                     validator=U.validator_table(info["V"]))
 
-    def set_operands(self, cx, st, n, prefix="arg"):
+    def set_operands(self, cx, st, n, prefix="arg", pytype=None):
         refs, terms = [], []
         for i in range(n):
             t = z3.Const("%s%d" % (prefix, i), SetV)
             r = VRef(cx.new_oid())
-            st = st.put(r.oid, HObj("set", t))
+            # a frozenset operand behaves like a set for every set operation but is not an instance of `set`
+            st = st.put(r.oid, HObj("set", t, None, None, {"pytype": pytype} if pytype else {}))
             refs.append(r)
             terms.append(t)
         return st, refs, terms
@@ -347,8 +348,10 @@ class TSIntersectionUpdate(_VarArgs):
 
 
 class _InPlace(SetMutator):
+    overloads = ("default", "frozenset-operand")
+
     def args(self, cx, ov, st):
-        st, refs, terms = self.set_operands(cx, st, 1, "value")
+        st, refs, terms = self.set_operands(cx, st, 1, "value", pytype="frozenset" if ov == "frozenset-operand" else None)
         return st, list(refs), {}, dict(operands=terms, witness=dict(value=terms[0]))
 
 
@@ -400,7 +403,7 @@ class _Xor(SetMutator):
     result = None
 
     def args(self, cx, ov, st):
-        st, refs, terms = self.set_operands(cx, st, 1, "value")
+        st, refs, terms = self.set_operands(cx, st, 1, "value", pytype="frozenset" if ov == "frozenset-operand" else None)
         return st, list(refs), {}, dict(operands=terms, witness=dict(value=terms[0]))
 
     def reference(self, cx, I, ov, info):
@@ -423,6 +426,7 @@ class _Xor(SetMutator):
 class TSIXor(_Xor):
     qualname = "TraitSet.__ixor__"
     result = "self"
+    overloads = ("default", "frozenset-operand")
 
 
 @register
